@@ -1528,12 +1528,13 @@ QMap<QByteArray, QByteArray> QXmppSaslDigestMd5::parseMessage(const QByteArray &
             // check whether string is quoted
             // skip opening quote
             pos++;
-            int endPos = ba.indexOf('"', pos);
-            // skip quoted quotes
-            while (endPos >= 0 && ba.at(endPos - 1) == '\\') {
-                endPos = ba.indexOf('"', endPos + 1);
+            // find the closing quote; a backslash quotes the character that follows it (RFC 2831 7.1),
+            // so a value may end in an escaped backslash
+            int endPos = pos;
+            while (endPos < ba.size() && ba.at(endPos) != '"') {
+                endPos += (ba.at(endPos) == '\\') ? 2 : 1;
             }
-            if (endPos < 0) {
+            if (endPos >= ba.size()) {
                 qWarning("Unfinished quoted string");
                 return map;
             }
